@@ -9,7 +9,7 @@ from jv.props import common as C
 
 ID = "C06"
 LEVEL = "exploration"
-BUDGET = {"quick": 2400, "thorough": 40000}
+BUDGET = {"quick": 4000, "thorough": 48000}
 RULE = (
     "case = generated scenario (max_nodes in {None,1,2,3}, processes-per-node in {unset,1,2,3}, node CPU count 1-4) "
     "x schedule x up to 3 moments at which the scheduler shows a queued/running batch in a non-terminal state outside "
